@@ -210,13 +210,25 @@ class FilReader(Filterbank):
         if lastread != 0:
             blocks.append((nreads, lastread * self.header.nchans, 0))
 
+        ends_at_eos = start + nsamps >= self.header.nsamples
+        read_view = memoryview(read_buffer)
+        unpack_view = None if unpack_buffer is None else memoryview(unpack_buffer)
         for ii, block, skip in track(blocks, description=description, disable=quiet):
             logger.debug(
                 f"read_plan: Reading block {ii}/{nreads}, {block} elements, "
                 f"with skipback={skip}",
             )
-            nbytes = self._file.creadinto(read_buffer, unpack_buffer)
             expected_nbytes = int(block * self.chan_stride)
+            # A shorter last block must only read the bytes planned for it, unless
+            # the plan runs to the end of the stream (a surplus there means the file
+            # is corrupted and is reported below)
+            nread = len(read_view) if ends_at_eos else expected_nbytes
+            nbytes = self._file.creadinto(
+                read_view[:nread],
+                None
+                if unpack_view is None
+                else unpack_view[: nread * self.bitsinfo.bitfact],
+            )
             if nbytes != expected_nbytes:
                 msg = (
                     f"Unexpected number of bytes read from file {nbytes} (actual) "
